@@ -71,6 +71,17 @@ check("C15", "net-sim", "fault_enumeration",
       "A crash is a process kill at a statement boundary (a cut inside an explicit SQL transaction rolls it back); the event store and the signer side are not covered; the baseline must itself pass the quiescence script (differential), quorum-less epochs are excused and counted.",
       "DESIGN.md section 4 C15, section 6 H2")
 
+check("C19", "restore-sim", "exploration",
+      "deterministic simulation of a database restore against seeded mirrors (honest, missing, truncated, bit-flipped, wrong compression, hostile extra entries, manifest alterations) with a serialising downloader decorator that makes the order of parallel download completions and failures a seeded choice; recursive before/after listing oracle",
+      "Seeded scenarios drive the real download_unpack (JoinSet, location fallback, real tar + zstd/gzip unpack over file://, unexpected-file clean-up, ancillary verification and move, bootstrap markers) against 1-3 mirrors serving 25 shapes of hostile entries and 9 manifest alterations, with failures injected while files are being unpacked; after every call (success or error) every new or changed path must be a client marker, an immutable file of the requested range, or a file vouched by a manifest signed with the configured key.",
+      "No two real unpacks overlap (orders only); an abort landing in the middle of an unpack is not simulated; certificate chain validity is assumed (C03).",
+      "DESIGN.md section 4 C19, sim-restore/REPORT.md")
+check("C10", "restore-sim", "fault_enumeration",
+      "fault enumeration on the restored directory and the served digest list (at-rest storage faults and corrupting mirror): every single and every ordered pair of faults for databases of 1-3 trios over every range shape, plus seeded larger scenarios, through the real download / digest verification / database verification / message computation; independent name->sha256 model",
+      "Scoped claim (DESIGN section 4 C10): directory states and digest lists that are the image of an honest restore under storage / transport faults (bit flip, truncate, zero-fill, delete, swap contents, copy over, stray file, rename; list entry renamed, swapped, dropped, added, reordered, other beacon). Acceptance (all four client calls succeed) must imply: every certified name of the range present unless allow_missing, content hash equal to the certified digest of that very name, no other immutable-looking file in range. Fault-free must succeed.",
+      "The certificate chain is assumed valid; enumeration is complete for d <= 2 and for the full / inner ranges of d = 3 in the quick tier.",
+      "DESIGN.md section 4 C10, sim-restore/REPORT.md")
+
 def manifest():
     checks = []
     for pid in sorted(CHECKS):
